@@ -32,6 +32,19 @@ class H(Harness):
             dyn = rnd.choice(['stochastic', 'synchronous', 'synchronous'])
             tb = kcommon.gen_table(rnd, dyn, allow=allow, maxacts=4, unnamed_ok=True)
             out.append({'table': tb, 'dynamics': dyn, 'seed': rnd.randrange(1 << 30), 'prerun': rnd.random() < 0.25})
+        # the zero-probability clause at its boundaries: a leading event of probability 0 with the kind-selecting variate
+        # exactly 0 (Gillespie), and trial variates exactly 0 against probability 0 (synchronous)
+        for i in range(max(24, n // 12)):
+            dyn = 'stochastic' if i % 2 == 0 else 'synchronous'
+            tb = kcommon.gen_table(rnd, dyn, allow=allow, maxacts=3)
+            for pr in tb['procs']:
+                for k, ev in enumerate(pr['events']):
+                    if k % 2 == 0:
+                        ev['p'] = 0.0
+            if not any(ev['p'] == 0.0 for pr in tb['procs'] for ev in pr['events']):
+                continue
+            script = [0.5, 0.0] * 60 if dyn == 'stochastic' else [0.0] * 240
+            out.append({'table': tb, 'dynamics': dyn, 'seed': rnd.randrange(1 << 30), 'prerun': False, 'script': {'random': script}})
         try:
             from harness import compart
             out += compart.c05_cases(rnd, max(20, n // 5))
